@@ -109,7 +109,112 @@ fn recovery() -> Vec<HOp> {
 }
 
 fn units(_tier: &str) -> usize {
-    grid().len() + dup_cases().len() + NG.len() + dir_cases().len()
+    grid().len() + dup_cases().len() + NG.len() + dir_cases().len() + 2
+}
+
+// ---------------------------------------------------------------- a rename that really fails
+
+/// Numbers naming: the name the next rotation renames rCURRENT to is taken by a directory, so
+/// the rename really fails (EISDIR). W W [mkdir app_r00001.log] W W [rmdir] W W W: nothing
+/// logged before may be lost (a rotation that cannot move rCURRENT away must not truncate it),
+/// the failure is reported, only the two records logged meanwhile may be missing, and logging
+/// and rotation resume.
+fn run_rename_dir(mode: ModeK) -> Result<usize, Fail> {
+    let env = Env::new("c19n");
+    env.enter();
+    let mut cfg = Cfg::rot(CritK::Size(LIMIT), NamingK::Numbers, CleanK::Never);
+    cfg.mode = mode;
+    let mut h = Hist::new(&env, cfg.clone());
+    let step = |h: &mut Hist| -> Result<(), Fail> {
+        match h.apply(HOp::W(20)) {
+            Err(crate::fl::StepErr::Build(e)) => Err(Fail {
+                clause: "run-error",
+                detail: format!("build: {e}"),
+            }),
+            _ => Ok(()),
+        }
+    };
+    step(&mut h)?;
+    step(&mut h)?;
+    let obstacle = env.dir.join("app_r00001.log");
+    std::fs::create_dir_all(&obstacle).and_then(|()| std::fs::write(obstacle.join("x"), b"x")).map_err(|e| Fail {
+        clause: "machinery",
+        detail: e.to_string(),
+    })?;
+    let errs0 = env.errlines().len();
+    let exempt_from = h.accepted.len();
+    step(&mut h)?;
+    step(&mut h)?;
+    let exempt_to = h.accepted.len();
+    let reported = env.errlines().len() - errs0;
+    std::fs::remove_dir_all(&obstacle).ok();
+    for _ in 0..3 {
+        step(&mut h)?;
+    }
+    let lines = h.accepted.clone();
+    h.stop();
+    drop(h);
+    env.leave();
+    if reported == 0 {
+        return Err(Fail {
+            clause: "not-reported",
+            detail: "the rotation could not rename rCURRENT (the target name is a directory) but nothing was written to the error channel".into(),
+        });
+    }
+    let scan = family::scan(&env.dir, &cfg.parts, None, cfg.naming(), &[]);
+    let stream = scan.stream(&env.dir).map_err(|e| Fail {
+        clause: "run-error",
+        detail: e,
+    })?;
+    let (found, _) = family::split_lines(&stream, "\n");
+    let texts: Vec<String> = lines.iter().map(|l| String::from_utf8_lossy(&l[..l.len() - 1]).to_string()).collect();
+    let mut pos = 0;
+    for (i, t) in texts.iter().enumerate() {
+        match found[pos..].iter().position(|f| f == t) {
+            Some(p) => pos += p + 1,
+            None if (exempt_from..exempt_to).contains(&i) => {}
+            None => {
+                return Err(Fail {
+                    clause: "unrelated-record-lost",
+                    detail: format!("record {t:?} (#{i}) is missing or out of order although it was not logged while the rename failed (those are #{exempt_from}..#{exempt_to}); files {:?} hold {found:?}", scan.names()),
+                })
+            }
+        }
+    }
+    if found.last() != texts.last() {
+        return Err(Fail {
+            clause: "no-recovery",
+            detail: format!("the last record logged after the obstacle was removed is not the last line: {found:?}"),
+        });
+    }
+    Ok(reported)
+}
+
+fn run_rename_dir_unit(idx: usize, unit: usize, out: &mut Out) {
+    let mode = [ModeK::Direct, ModeK::BufDont(16)][idx % 2];
+    let case = json!({"unit": unit, "rename_dir": idx});
+    let cause = format!("rename-target-is-a-directory/Num/{}", super::c08::mode_class(mode));
+    let mut vs = Vec::new();
+    for _ in 0..2 {
+        out.evaluations += 1;
+        out.transitions += 7;
+        match run_isolated(Duration::from_secs(30), move || run_rename_dir(mode)) {
+            Ran::Done(Ok(n)) => {
+                out.outcome(format!("rename really fails: error lines={}", n.min(9)));
+                break;
+            }
+            Ran::Done(Err(f)) => vs.push(Violation::new(f.clause, cause.clone(), format!("Numbers, size limit {LIMIT}, mode {mode:?}; history W W [mkdir app_r00001.log] W W [rmdir] W W W\n  {}", f.detail), case.clone())),
+            Ran::Panicked(m) => vs.push(Violation::new("panic", cause.clone(), m, case.clone())),
+            Ran::Hung => vs.push(Violation::new("hang", cause.clone(), String::new(), case.clone())),
+        }
+    }
+    out.state(&(unit, "rename_dir"));
+    out.nontrivial(&(unit, "rename_dir"));
+    if vs.len() == 2 && vs[0].key() == vs[1].key() {
+        out.violation(vs.remove(0));
+    } else if !vs.is_empty() {
+        out.violation(Violation::new("nondeterministic", "replay-diverged", vs[0].detail.clone(), case));
+    }
 }
 
 // ---------------------------------------------------------------- the log directory disappears
@@ -777,6 +882,10 @@ fn judge_df(c: &Case, faults: &[FaultSpec], dev_full: Option<String>, unit: usiz
 
 fn run_unit(tier: &str, unit: usize, out: &mut Out) {
     let g = grid();
+    if unit >= g.len() + dup_cases().len() + NG.len() + dir_cases().len() {
+        run_rename_dir_unit(unit - g.len() - dup_cases().len() - NG.len() - dir_cases().len(), unit, out);
+        return;
+    }
     if unit >= g.len() + dup_cases().len() + NG.len() {
         run_dir_unit(unit - g.len() - dup_cases().len() - NG.len(), unit, out);
         return;
@@ -884,6 +993,12 @@ fn run_unit(tier: &str, unit: usize, out: &mut Out) {
 fn replay(case: &Value) -> Vec<Violation> {
     let g = grid();
     let unit = case["unit"].as_u64().unwrap_or(0) as usize;
+    if let Some(idx) = case["rename_dir"].as_u64() {
+        let mut out = Out::default();
+        println!("replay C19: the rename target is a directory, case {idx}");
+        run_rename_dir_unit(idx as usize, unit, &mut out);
+        return out.violations;
+    }
     if let Some(idx) = case["dir_removed"].as_u64() {
         let mut out = Out::default();
         println!("replay C19: log directory removed, case {:?}", dir_cases().get(idx as usize));
